@@ -707,4 +707,140 @@ theorem readallLoop_faithful : ∀ (f : Nat) (s : St) (acc : Bytes), Faithful s.
             = (s.limit - s.pos) - (List.take k s.u.data).length := by omega
         rw [e, take_take_drop _ _ _ hkl]
 
+/-! ### line structure of readline / next / readlines -/
+
+/-- a line as `readline` returns it: a newline can only be its last byte -/
+def LineShaped (l : Bytes) : Prop := 10 ∉ l.dropLast
+
+theorem readinto_length_le (s : St) (size : Nat) (b : Bytes) (h : (readinto s size).1 = .ok b) :
+    b.length ≤ size := by
+  unfold readinto at h
+  by_cases hlim : s.limit ≤ s.pos
+  · simp only [hlim, if_true] at h
+    cases ho : onExhausted s <;> simp [ho, hook] at h
+    subst h; simp
+  · simp only [hlim, if_false] at h
+    rcases Under.call_cases s.u (request s size) with ⟨k, hk, hc⟩ | hc
+    · rw [hc] at h
+      have hks : k ≤ size := Nat.le_trans hk (request_le_size s size)
+      by_cases hb : (s.u.data.take k).isEmpty = true
+      · simp only [hb, if_true] at h
+        cases ho : onDisconnect s false <;> simp [ho, hook] at h
+        subst h; simp
+      · simp only [hb, Bool.false_eq_true, if_false, Except.ok.injEq] at h
+        rw [← h, List.length_take]; omega
+    · rw [hc] at h
+      cases ho : onDisconnect s true <;> simp [ho, hook] at h
+      subst h; simp
+
+theorem readlineLoop_shape : ∀ (f : Nat) (s : St) (lim : Option Nat) (acc l : Bytes), 10 ∉ acc →
+    (∀ n, lim = some n → acc.length ≤ n) →
+    (readlineLoop f s lim acc).1 = .ok l → LineShaped l ∧ (∀ n, lim = some n → l.length ≤ n) := by
+  intro f
+  induction f with
+  | zero =>
+    intro s lim acc l hacc hlen h
+    simp only [readlineLoop, Except.ok.injEq] at h
+    subst h
+    exact ⟨fun hm => hacc (List.dropLast_subset _ hm), hlen⟩
+  | succ f ih =>
+    intro s lim acc l hacc hlen h
+    unfold readlineLoop at h
+    by_cases hl : reachedLimit lim acc.length = true
+    · simp only [hl, if_true, Except.ok.injEq] at h
+      subst h
+      exact ⟨fun hm => hacc (List.dropLast_subset _ hm), hlen⟩
+    · simp only [hl, Bool.false_eq_true, if_false, read] at h
+      have hlt : ∀ n, lim = some n → acc.length < n := by
+        intro n hn
+        subst hn
+        simp only [reachedLimit, decide_eq_true_eq, Nat.not_le] at hl
+        exact hl
+      have hle := readinto_length_le s 1
+      rcases hr : readinto s 1 with ⟨r, s'⟩
+      rw [hr] at h hle
+      cases r with
+      | error e => simp at h
+      | ok d =>
+        have hd1 := hle d rfl
+        simp only at h
+        by_cases hd : d.isEmpty = true
+        · simp only [hd, if_true, Except.ok.injEq] at h
+          subst h
+          exact ⟨fun hm => hacc (List.dropLast_subset _ hm), hlen⟩
+        · simp only [hd, Bool.false_eq_true, if_false] at h
+          -- d is a single byte
+          obtain ⟨x, rfl⟩ : ∃ x, d = [x] := by
+            cases d with
+            | nil => simp at hd
+            | cons x t =>
+              cases t with
+              | nil => exact ⟨x, rfl⟩
+              | cons y t => simp at hd1
+          have hlen' : ∀ n, lim = some n → (acc ++ [x]).length ≤ n := by
+            intro n hn; have := hlt n hn; simp; omega
+          by_cases hn : (([x] : Bytes).getLast? == some 10) = true
+          · simp only [hn, if_true, Except.ok.injEq] at h
+            subst h
+            refine ⟨?_, hlen'⟩
+            simp only [LineShaped, List.dropLast_concat]
+            exact hacc
+          · simp only [hn, Bool.false_eq_true, if_false] at h
+            have hx : x ≠ 10 := by simpa using hn
+            exact ih s' lim (acc ++ [x]) l (by simp [hacc, hx.symm]) hlen' h
+
+theorem readline_shape (s : St) (lim : Option Nat) (l : Bytes) (h : (readline s lim).1 = .ok l) :
+    LineShaped l ∧ (∀ n, lim = some n → l.length ≤ n) :=
+  readlineLoop_shape _ s lim [] l (by simp) (by simp) h
+
+theorem next_shape (s : St) (l : Bytes) (h : (next s).1 = .ok l) : l ≠ [] ∧ LineShaped l := by
+  unfold next at h
+  have hs := readline_shape s none
+  rcases hr : readline s none with ⟨r, s'⟩
+  rw [hr] at h hs
+  cases r with
+  | error e => simp at h
+  | ok l' =>
+    simp only at h
+    by_cases he : l'.isEmpty = true
+    · simp [he] at h
+    · simp only [he, Bool.false_eq_true, if_false, Except.ok.injEq] at h
+      subst h
+      exact ⟨by simpa using he, (hs l' rfl).1⟩
+
+theorem readlinesLoop_shape : ∀ (f : Nat) (s : St) (hint : Option Nat) (len : Nat) (acc ls : List Bytes),
+    (∀ l ∈ acc, l ≠ [] ∧ LineShaped l) → (readlinesLoop f s hint len acc).1 = .ok ls →
+    ∀ l ∈ ls, l ≠ [] ∧ LineShaped l := by
+  intro f
+  induction f with
+  | zero => intro s hint len acc ls hacc h; simp only [readlinesLoop, Except.ok.injEq] at h; subst h; exact hacc
+  | succ f ih =>
+    intro s hint len acc ls hacc h
+    unfold readlinesLoop at h
+    have hn := next_shape s
+    rcases hr : next s with ⟨r, s'⟩
+    rw [hr] at h hn
+    cases r with
+    | error e =>
+      simp only at h
+      split at h
+      · simp only [Except.ok.injEq] at h; subst h; exact hacc
+      · simp at h
+    | ok l =>
+      have hl := hn l rfl
+      have hacc' : ∀ x ∈ acc ++ [l], x ≠ [] ∧ LineShaped x := by
+        intro x hx
+        simp only [List.mem_append, List.mem_singleton] at hx
+        rcases hx with hx | rfl
+        · exact hacc x hx
+        · exact hl
+      simp only at h
+      cases hint with
+      | none => exact ih s' none len _ ls hacc' h
+      | some hh =>
+        simp only at h
+        split at h
+        · simp only [Except.ok.injEq] at h; subst h; exact hacc'
+        · exact ih s' (some hh) _ _ ls hacc' h
+
 end Wz.LS
